@@ -12,9 +12,12 @@
 (*   prints it, and the harness replays each schedule on the real code.    *)
 (* SharedStack = TRUE is the mutant "operand stack kept in the shared      *)
 (* program": TLC then finds a schedule that breaks Isolation.              *)
+(* TryProcs: the processes that call TryEval (with the variables           *)
+(* ConcProgs!Unavail(p) unavailable) instead of Eval, so that schedules    *)
+(* interleave the two evaluators on one program.                           *)
 (***************************************************************************)
 EXTENDS ConcProgs
-CONSTANTS NProc, SharedStack, Emit
+CONSTANTS NProc, SharedStack, Emit, TryProcs
 
 VARIABLES prog, L, s, sched, shared
 vars == <<prog, L, s, sched, shared>>
@@ -28,15 +31,16 @@ Init == /\ prog \in ProgIdx
         /\ shared = <<>>       \* the shared operand stack of the mutant
 
 \* run process state st (with binding e) until its effect log grows or it stops
-RECURSIVE ToEffect(_, _, _)
-ToEffect(e, st, n0) ==
+StepOf(p, e, st) == IF p \in TryProcs THEN TryNext(L, e, AvOf(p), st, FALSE, TRUE) ELSE EvalNext(L, e, st, FALSE, TRUE)
+RECURSIVE ToEffect(_, _, _, _)
+ToEffect(p, e, st, n0) ==
   IF st.st # "run" \/ Len(st.eff) > n0 THEN st
-  ELSE ToEffect(e, EvalNext(L, e, st, FALSE, TRUE), n0)
+  ELSE ToEffect(p, e, StepOf(p, e, st), n0)
 
 Advance(p) ==
   /\ s[p].st = "run"
   /\ LET cur == IF SharedStack /\ shared # <<>> THEN [s[p] EXCEPT !.os = shared] ELSE s[p]
-         nxt == ToEffect(EnvOf(p), cur, Len(cur.eff))
+         nxt == ToEffect(p, EnvOf(p), cur, Len(cur.eff))
      IN /\ s' = [s EXCEPT ![p] = nxt]
         /\ shared' = IF SharedStack THEN nxt.os ELSE shared
         /\ sched' = Append(sched, <<p, Len(nxt.eff) - Len(cur.eff)>>)
@@ -45,11 +49,11 @@ Next == \E p \in 1..NProc : Advance(p)
 Spec == Init /\ [][Next]_vars
 
 AllDone == \A p \in 1..NProc : s[p].st # "run"
-Solo(p) == Run(L, EnvOf(p))
+Solo(p) == IF p \in TryProcs THEN TryRun(L, EnvOf(p), AvOf(p)) ELSE Run(L, EnvOf(p))
 Isolation == \A p \in 1..NProc :
                s[p].st = "done" => (OutcomeEq(s[p].res, Solo(p).res) /\ Len(s[p].eff) = Len(Solo(p).eff))
 NoPanic == \A p \in 1..NProc : s[p].st \in {"run", "done"}
 ProgramImmutable == [][L' = L]_vars
 \* every terminal state prints its schedule for replay on the real code
-EmitSchedules == (Emit /\ AllDone) => PrintT("CASE " \o ToString(prog) \o " " \o ToString(sched))
+EmitSchedules == (Emit /\ AllDone) => PrintT("CASE " \o ToString(prog) \o " try=" \o ToString(TryProcs) \o " " \o ToString(sched))
 =============================================================================
